@@ -4,7 +4,7 @@
 use crate::util::{Rng, guarded};
 use poulpy_ckks::encoding::reim::Encoder;
 use poulpy_ckks::layouts::ciphertext::{CKKSCiphertext, CKKSMaintainOps};
-use poulpy_ckks::layouts::plaintext::{CKKSPlaintextVecRnx, alloc_pt_vec_znx, CKKSPlaintextConversion};
+use poulpy_ckks::layouts::plaintext::{CKKSPlaintextVecRnx, CKKSPlaintextCstRnx, alloc_pt_vec_znx, CKKSPlaintextConversion};
 use poulpy_ckks::leveled::api::*;
 use poulpy_ckks::{CKKSCompositionError, CKKSInfos, CKKSMeta};
 use poulpy_core::api::*;
@@ -95,6 +95,14 @@ macro_rules! ckks_backend {
                 let bb = gu(st, "b", 0) as usize;
                 let bits = gu(st, "bits", 0) as usize;
                 let rot = st.get("rot").and_then(|v| v.as_i64()).unwrap_or(1);
+                // plaintext operand: precision (pld, pplb), a test vector or a constant of the table below; c = third register (add_many)
+                let pprec = CKKSMeta { log_delta: gu(st, "pld", 0) as usize, log_budget: gu(st, "pplb", 0) as usize };
+                let pvec = gu(st, "vec", 0) as usize % 2;
+                let csts: [(Option<f64>, Option<f64>); 4] = [(Some(0.5), None), (None, Some(-0.75)), (Some(1.25), Some(0.5)), (Some(-1.0), None)];
+                let cst = csts[gu(st, "cst", 0) as usize % 4];
+                let cc = gu(st, "c", 0) as usize;
+                let rc = regs[cc].as_ref().and_then(clone_ct);
+                let (fc, fd) = (refs[cc].clone(), refs[d].clone());
                 // operands are cloned so that in-place and aliased forms are expressible
                 let ra = regs[a].as_ref().and_then(clone_ct);
                 let rb = regs[bb].as_ref().and_then(clone_ct);
@@ -170,6 +178,69 @@ macro_rules! ckks_backend {
                                 "rot_into" | "rot_assign" => {
                                     newref = va.as_ref().map(|v| { let s = v.0.len(); let k = rot.rem_euclid(s as i64) as usize; ((0..s).map(|i| v.0[(i + k) % s]).collect(), (0..s).map(|i| v.1[(i + k) % s]).collect()) });
                                     if op == "rot_into" { into!(|dst: &mut CKKSCiphertext<Vec<u8>>| m.ckks_rotate_into(dst, x, rot, &atks, sref)) } else { into!(|dst: &mut CKKSCiphertext<Vec<u8>>| m.ckks_rotate_assign(dst, rot, &atks, sref)) }
+                                }
+                                "add_ptv_into" | "sub_ptv_into" | "add_ptv_assign" | "sub_ptv_assign" | "mul_ptv_into" | "mul_ptv_assign" | "mul_add_ptv" | "mul_sub_ptv" => {
+                                    let w = &vecs[pvec];
+                                    let mut pt_rnx = CKKSPlaintextVecRnx::<f64>::alloc(n).unwrap();
+                                    encoder.encode_reim(&mut pt_rnx, &w.0, &w.1)?;
+                                    let src = if op.ends_with("_assign") || op.starts_with("mul_add") || op.starts_with("mul_sub") { if op.ends_with("_assign") { fd.clone() } else { va.clone() } } else { va.clone() };
+                                    let comb = |f: &dyn Fn((f64, f64), (f64, f64)) -> (f64, f64), v: &Option<Cx>| -> Option<Cx> {
+                                        v.as_ref().map(|v| { let p: Vec<(f64, f64)> = (0..v.0.len()).map(|i| f((v.0[i], v.1[i]), (w.0[i], w.1[i]))).collect(); (p.iter().map(|t| t.0).collect(), p.iter().map(|t| t.1).collect()) })
+                                    };
+                                    let cmul = |p: (f64, f64), q: (f64, f64)| (p.0 * q.0 - p.1 * q.1, p.0 * q.1 + p.1 * q.0);
+                                    match op.as_str() {
+                                        "add_ptv_into" => { newref = comb(&|p, q| (p.0 + q.0, p.1 + q.1), &src); into!(|dst: &mut CKKSCiphertext<Vec<u8>>| m.ckks_add_pt_vec_rnx_into(dst, x, &pt_rnx, pprec, sref)) }
+                                        "sub_ptv_into" => { newref = comb(&|p, q| (p.0 - q.0, p.1 - q.1), &src); into!(|dst: &mut CKKSCiphertext<Vec<u8>>| m.ckks_sub_pt_vec_rnx_into(dst, x, &pt_rnx, pprec, sref)) }
+                                        "add_ptv_assign" => { newref = comb(&|p, q| (p.0 + q.0, p.1 + q.1), &src); into!(|dst: &mut CKKSCiphertext<Vec<u8>>| m.ckks_add_pt_vec_rnx_assign(dst, &pt_rnx, pprec, sref)) }
+                                        "sub_ptv_assign" => { newref = comb(&|p, q| (p.0 - q.0, p.1 - q.1), &src); into!(|dst: &mut CKKSCiphertext<Vec<u8>>| m.ckks_sub_pt_vec_rnx_assign(dst, &pt_rnx, pprec, sref)) }
+                                        "mul_ptv_into" => { newref = comb(&cmul, &src); into!(|dst: &mut CKKSCiphertext<Vec<u8>>| m.ckks_mul_pt_vec_rnx_into(dst, x, &pt_rnx, pprec, sref)) }
+                                        "mul_ptv_assign" => { newref = comb(&cmul, &src); into!(|dst: &mut CKKSCiphertext<Vec<u8>>| m.ckks_mul_pt_vec_rnx_assign(dst, &pt_rnx, pprec, sref)) }
+                                        _ => {
+                                            // dst (+-)= a * pt
+                                            let prod = comb(&cmul, &va);
+                                            let sgn = if op == "mul_add_ptv" { 1.0 } else { -1.0 };
+                                            newref = match (fd.as_ref(), prod.as_ref()) { (Some(dv), Some(pv)) => Some(((0..dv.0.len()).map(|i| dv.0[i] + sgn * pv.0[i]).collect(), (0..dv.0.len()).map(|i| dv.1[i] + sgn * pv.1[i]).collect())), _ => None };
+                                            if op == "mul_add_ptv" { into!(|dst: &mut CKKSCiphertext<Vec<u8>>| m.ckks_mul_add_pt_vec_rnx_into(dst, x, &pt_rnx, pprec, sref)) } else { into!(|dst: &mut CKKSCiphertext<Vec<u8>>| m.ckks_mul_sub_pt_vec_rnx_into(dst, x, &pt_rnx, pprec, sref)) }
+                                        }
+                                    }
+                                }
+                                "add_ptc_into" | "sub_ptc_into" | "add_ptc_assign" | "sub_ptc_assign" | "mul_ptc_into" | "mul_ptc_assign" | "mul_add_ptc" | "mul_sub_ptc" => {
+                                    let cr = CKKSPlaintextCstRnx::<f64>::new(cst.0, cst.1);
+                                    let w = (cst.0.unwrap_or(0.0), cst.1.unwrap_or(0.0));
+                                    let src = if op.ends_with("_assign") { fd.clone() } else { va.clone() };
+                                    let comb = |f: &dyn Fn((f64, f64), (f64, f64)) -> (f64, f64), v: &Option<Cx>| -> Option<Cx> {
+                                        v.as_ref().map(|v| { let p: Vec<(f64, f64)> = (0..v.0.len()).map(|i| f((v.0[i], v.1[i]), w)).collect(); (p.iter().map(|t| t.0).collect(), p.iter().map(|t| t.1).collect()) })
+                                    };
+                                    let cmul = |p: (f64, f64), q: (f64, f64)| (p.0 * q.0 - p.1 * q.1, p.0 * q.1 + p.1 * q.0);
+                                    match op.as_str() {
+                                        "add_ptc_into" => { newref = comb(&|p, q| (p.0 + q.0, p.1 + q.1), &src); into!(|dst: &mut CKKSCiphertext<Vec<u8>>| m.ckks_add_pt_const_rnx_into(dst, x, &cr, pprec, sref)) }
+                                        "sub_ptc_into" => { newref = comb(&|p, q| (p.0 - q.0, p.1 - q.1), &src); into!(|dst: &mut CKKSCiphertext<Vec<u8>>| m.ckks_sub_pt_const_rnx_into(dst, x, &cr, pprec, sref)) }
+                                        "add_ptc_assign" => { newref = comb(&|p, q| (p.0 + q.0, p.1 + q.1), &src); into!(|dst: &mut CKKSCiphertext<Vec<u8>>| m.ckks_add_pt_const_rnx_assign(dst, &cr, pprec, sref)) }
+                                        "sub_ptc_assign" => { newref = comb(&|p, q| (p.0 - q.0, p.1 - q.1), &src); into!(|dst: &mut CKKSCiphertext<Vec<u8>>| m.ckks_sub_pt_const_rnx_assign(dst, &cr, pprec, sref)) }
+                                        "mul_ptc_into" => { newref = comb(&cmul, &src); into!(|dst: &mut CKKSCiphertext<Vec<u8>>| m.ckks_mul_pt_const_rnx_into(dst, x, &cr, pprec, sref)) }
+                                        "mul_ptc_assign" => { newref = comb(&cmul, &src); into!(|dst: &mut CKKSCiphertext<Vec<u8>>| m.ckks_mul_pt_const_rnx_assign(dst, &cr, pprec, sref)) }
+                                        _ => {
+                                            let prod = comb(&cmul, &va);
+                                            let sgn = if op == "mul_add_ptc" { 1.0 } else { -1.0 };
+                                            newref = match (fd.as_ref(), prod.as_ref()) { (Some(dv), Some(pv)) => Some(((0..dv.0.len()).map(|i| dv.0[i] + sgn * pv.0[i]).collect(), (0..dv.0.len()).map(|i| dv.1[i] + sgn * pv.1[i]).collect())), _ => None };
+                                            if op == "mul_add_ptc" { into!(|dst: &mut CKKSCiphertext<Vec<u8>>| m.ckks_mul_add_pt_const_rnx_into(dst, x, &cr, pprec, sref)) } else { into!(|dst: &mut CKKSCiphertext<Vec<u8>>| m.ckks_mul_sub_pt_const_rnx_into(dst, x, &cr, pprec, sref)) }
+                                        }
+                                    }
+                                }
+                                "mul_add_ct" | "mul_sub_ct" => {
+                                    let prod = bin(&|p, q| (p.0 * q.0 - p.1 * q.1, p.0 * q.1 + p.1 * q.0));
+                                    let sgn = if op == "mul_add_ct" { 1.0 } else { -1.0 };
+                                    newref = match (fd.as_ref(), prod.as_ref()) { (Some(dv), Some(pv)) => Some(((0..dv.0.len()).map(|i| dv.0[i] + sgn * pv.0[i]).collect(), (0..dv.0.len()).map(|i| dv.1[i] + sgn * pv.1[i]).collect())), _ => None };
+                                    if op == "mul_add_ct" { into!(|dst: &mut CKKSCiphertext<Vec<u8>>| m.ckks_mul_add_ct_into(dst, x, y.unwrap(), &tskp, sref)) } else { into!(|dst: &mut CKKSCiphertext<Vec<u8>>| m.ckks_mul_sub_ct_into(dst, x, y.unwrap(), &tskp, sref)) }
+                                }
+                                "add_many" => {
+                                    let mut ins: Vec<&CKKSCiphertext<Vec<u8>>> = vec![x];
+                                    let mut sum = va.clone();
+                                    let addv = |s: Option<Cx>, w: &Option<Cx>| -> Option<Cx> { match (s, w.as_ref()) { (Some(s), Some(w)) => Some(((0..s.0.len()).map(|i| s.0[i] + w.0[i]).collect(), (0..s.0.len()).map(|i| s.1[i] + w.1[i]).collect())), _ => None } };
+                                    if bits >= 2 { ins.push(y.unwrap()); sum = addv(sum, &fb); }
+                                    if bits >= 3 { ins.push(rc.as_ref().unwrap()); sum = addv(sum, &fc); }
+                                    newref = sum;
+                                    into!(|dst: &mut CKKSCiphertext<Vec<u8>>| m.ckks_add_many(dst, &ins, sref))
                                 }
                                 "compact" => { newref = un(&|r, i| (r, i)); into!(|dst: &mut CKKSCiphertext<Vec<u8>>| m.ckks_compact_limbs(dst)) }
                                 "realloc" => { newref = un(&|r, i| (r, i)); into!(|dst: &mut CKKSCiphertext<Vec<u8>>| m.ckks_reallocate_limbs_checked(dst, bits)) }
